@@ -442,21 +442,21 @@ func (m *Monitors) onInvoke(inv Invocation) {
 	case "timeout":
 		t := m.curTimer
 		if t == nil {
-			m.violate("C12", "timeout-has-timer", "timeout-without-timer", fmt.Sprintf("timeout function invoked for run r%d with no due timer being processed", inv.Run))
+			m.violate("C12", "timeout-has-timer", "timeout-without-timer in "+m.pathName(), fmt.Sprintf("timeout function invoked for run r%d with no due timer being processed", inv.Run))
 			break
 		}
 		if w.RunOrd(t.RunID) != inv.Run {
-			m.violate("C12", "timeout-own-run", "timeout-for-other-run",
+			m.violate("C12", "timeout-own-run", "timeout-for-other-run in "+m.pathName(),
 				fmt.Sprintf("timeout function invoked for run r%d on account of timer %d, which was created for run r%d", inv.Run, t.ID, w.RunOrd(t.RunID)))
 		}
 		if t.ExpireAt.After(inv.Now) {
-			m.violate("C12", "timeout-due", "timeout-before-expiry", fmt.Sprintf("timer %d expires %v, clock %v", t.ID, t.ExpireAt, inv.Now))
+			m.violate("C12", "timeout-due", "timeout-before-expiry in "+m.pathName(), fmt.Sprintf("timer %d expires %v, clock %v", t.ID, t.ExpireAt, inv.Now))
 		}
 		if t.Completed {
-			m.violate("C12", "completed-never-again", "completed-timer-fired", fmt.Sprintf("timer %d", t.ID))
+			m.violate("C12", "completed-never-again", "completed-timer-fired in "+m.pathName(), fmt.Sprintf("timer %d", t.ID))
 		}
 		if inv.Persisted.Status != t.Status || isFinished(prs) {
-			m.violate("C12", "run-still-waiting", "timeout-run-moved-on",
+			m.violate("C12", "run-still-waiting", "timeout-run-moved-on in "+m.pathName(),
 				fmt.Sprintf("timeout function of status %d invoked for run r%d persisted at status %d run state %d", t.Status, inv.Run, inv.Persisted.Status, prs))
 		}
 		m.NonTrivial["timeout-fired"] = true
